@@ -174,7 +174,41 @@ func checkC03(c *Ctx) (string, []string) {
 	}
 	if f := c.Fn("PVM", "skip"); f != nil {
 		rs := returnShapes(f)["ret"]
-		c.Check(len(rs) == 1 && strings.HasPrefix(rs[0], "u32(min(24, "), "C03.zero-extension", "PVM.skip", f.Pos(), "skip distance ≤ 24", "skip() is not clamped to 24: "+strings.Join(rs, "|"))
+		// every returned distance is at most 24: a constant, min(24, ·), or a value bounded by a dominating comparison
+		clamped, nret := true, 0
+		allInstrs(f, func(in ssa.Instruction) {
+			r, isR := in.(*ssa.Return)
+			if !isR || len(r.Results) != 1 {
+				return
+			}
+			nret++
+			v := stripConv(r.Results[0])
+			if call, isCall := v.(*ssa.Call); isCall {
+				if b, isB := call.Call.Value.(*ssa.Builtin); isB && b.Name() == "min" {
+					for _, a := range call.Call.Args {
+						if k, isC := constInt(a); isC && k >= 0 && k <= 24 {
+							return
+						}
+					}
+				}
+			}
+			if k, ok := constUpperBound(f, r, r.Results[0]); ok && k <= 24 {
+				return
+			}
+			if p, isPhi := v.(*ssa.Phi); isPhi {
+				for i, e := range p.Edges {
+					pred := p.Block().Preds[i]
+					if k, ok := constUpperBound(f, pred.Instrs[len(pred.Instrs)-1], e); !ok || k > 24 {
+						clamped = false
+					}
+				}
+				return
+			}
+			if k, ok := constUpperBound(f, r, r.Results[0]); !ok || k > 24 {
+				clamped = false
+			}
+		})
+		c.Check(clamped && nret > 0, "C03.zero-extension", "PVM.skip", f.Pos(), "skip distance ≤ 24 on every return", "skip() is not clamped to 24: "+strings.Join(rs, "|"))
 	}
 	// reach of every read of instruction data relative to pc
 	nreach := 0
@@ -413,14 +447,20 @@ func checkC03(c *Ctx) (string, []string) {
 	}
 	// ---- engine guards
 	c.Rule("C03.engine-guards", "the engines and jump helpers keep their range guards (pc against the table lengths, jump-table index, basic-block membership)", 8)
-	ereq := map[string][]string{
-		"Interpreter.SingleStepStateTransition":     {"(len(p0.Program.InstructionData) <= int(p1))"},
-		"Interpreter.SingleStepInvokeDecodedBlocks": {"(len(p0.Program.BlockAt) <= int(", "(p0.Program.InstrIdxAt["},
-		"Program.preDecodeBlocks":                   {"(u32(len(p0.InstructionData)) <= ", "PVM.IsValidOpcode("},
-		"djump":                                     {"(0 == p1)", "((2 * p2.Size) < p1)", "((p1 % 2) != 0)"},
-		"branch":                                    {"(PVM.Bitmask).IsStartOfBasicBlock(p3, p1)"},
-		"Bitmask.IsStartOfBasicBlock":               {"(u32(len(p0)) <= p1)"},
-		"Bitmask.IsStartOfInstruction":              {"(len(p0) <= p1)", "(p1 < 0)"},
+	// each guard is a comparison that must occur among the tests of the function or of the package helpers it calls,
+	// whichever way round it is written (polarity-free atoms) — given as the fragments one atom has to contain
+	type guardPat struct {
+		name  string
+		parts []string
+	}
+	ereq := map[string][]guardPat{
+		"Interpreter.SingleStepStateTransition":     {{"pc < |code|", []string{"len(", ".InstructionData)", " < ", "p1"}}},
+		"Interpreter.SingleStepInvokeDecodedBlocks": {{"pc < |BlockAt|", []string{"len(", ".BlockAt)", " < "}}, {"InstrIdxAt[pc] ≥ 0", []string{".InstrIdxAt[", " < 0)"}}},
+		"Program.preDecodeBlocks":                   {{"pc < |code| (outer)", []string{"u32(len(p0.InstructionData))", " < "}}, {"running pc < |code| inside a block", []string{"^(Σ(", ") < u32(len(p0.InstructionData)))"}}, {"valid opcode", []string{"PVM.IsValidOpcode("}}},
+		"djump":                                     {{"a ≠ 0", []string{"(0 == p1)"}}, {"a ≤ 2·|j|", []string{"(2 * p2.Size)", " < p1"}}, {"a even", []string{"(p1 % 2)", " == 0)"}}},
+		"branch":                                    {{"target starts a block", []string{"IsStartOfBasicBlock(p3, p1)"}}},
+		"Bitmask.IsStartOfBasicBlock":               {{"addr < |bitmask|", []string{"(p1 < ", "len(p0)"}}},
+		"Bitmask.IsStartOfInstruction":              {{"addr < |bitmask|", []string{"(p1 < len(p0))"}}, {"addr ≥ 0", []string{"(p1 < 0)"}}},
 	}
 	var fnames []string
 	for n := range ereq {
@@ -432,15 +472,52 @@ func checkC03(c *Ctx) (string, []string) {
 		if f == nil {
 			continue
 		}
-		conds := condShapes(f)
+		// atoms of f and of the same-package functions it calls directly (in their own terms)
+		atoms := map[string]bool{}
+		collect := func(g *ssa.Function) {
+			seen := map[ssa.Value]bool{}
+			allInstrs(g, func(in ssa.Instruction) {
+				if ifi, ok := in.(*ssa.If); ok {
+					atomsOfCond(ifi.Cond, shapeOpts, nil, atoms, seen, 0)
+				}
+			})
+		}
+		collect(f)
+		allInstrs(f, func(in ssa.Instruction) {
+			if ci, ok := in.(ssa.CallInstruction); ok {
+				if g := calleeFunc(ci); g != nil && len(g.Blocks) > 0 && g.Pkg == f.Pkg && g != f {
+					collect(g)
+				}
+			}
+		})
 		for _, want := range ereq[n] {
 			found := false
-			for _, s := range conds {
-				if strings.HasPrefix(s, want) || strings.Contains(s, want) {
+			for s := range atoms {
+				all := true
+				for _, p := range want.parts {
+					if strings.HasPrefix(p, "^") {
+						if !strings.HasPrefix(s, p[1:]) {
+							all = false
+						}
+					} else if !strings.Contains(s, p) {
+						all = false
+					}
+				}
+				if all {
 					found = true
 				}
 			}
-			c.Check(found, "C03.engine-guards", "PVM."+n+" · "+want, f.Pos(), "guard present", "range guard "+want+"… is missing from "+n+" (conditions: "+strings.Join(conds, " ; ")+")")
+			var list []string
+			for s := range atoms {
+				if len(s) < 120 {
+					list = append(list, s)
+				}
+			}
+			sort.Strings(list)
+			if len(list) > 12 {
+				list = list[:12]
+			}
+			c.Check(found, "C03.engine-guards", "PVM."+n+" · "+want.name, f.Pos(), "guard present", "range guard "+want.name+" ("+strings.Join(want.parts, "…")+") is missing from "+n+" (tests: "+strings.Join(list, " ; ")+")")
 		}
 	}
 
@@ -649,6 +726,12 @@ func constUpperBound(f *ssa.Function, at ssa.Instruction, v ssa.Value) (uint64, 
 		if w, s, ok := bfWidth(cv.X.Type()); ok && !s && w < 64 {
 			best, have = 1<<w-1, true
 		}
+		// a conversion of a value already bounded (the bound is small enough to survive any integer conversion)
+		if k, ok := constUpperBound(f, at, cv.X); ok && k < 1<<7 && (!have || k < best) {
+			if nonNegLoopValue(cv.X) {
+				best, have = k, true
+			}
+		}
 	}
 	for _, b := range f.Blocks {
 		ifi, ok := b.Instrs[len(b.Instrs)-1].(*ssa.If)
@@ -703,4 +786,30 @@ func constUpperBound(f *ssa.Function, at ssa.Instruction, v ssa.Value) (uint64, 
 		}
 	}
 	return best, have
+}
+
+// nonNegLoopValue: v is unsigned, a non-negative constant, or a counter that starts at a non-negative constant and only grows.
+func nonNegLoopValue(v ssa.Value) bool {
+	v = stripConv(v)
+	if isUnsignedT(v.Type()) {
+		return true
+	}
+	if k, ok := constInt(v); ok {
+		return k >= 0
+	}
+	if p, ok := v.(*ssa.Phi); ok {
+		for _, e := range p.Edges {
+			if k, isC := constInt(e); isC && k >= 0 {
+				continue
+			}
+			if b, isB := stripConv(e).(*ssa.BinOp); isB && b.Op == token.ADD && stripConv(b.X) == ssa.Value(p) {
+				if k, isC := constInt(b.Y); isC && k >= 0 {
+					continue
+				}
+			}
+			return false
+		}
+		return true
+	}
+	return false
 }
